@@ -4,8 +4,8 @@ CONSTANTS
   Rows = {"r1", "r2"}
   Acts = {"a1"}
   MaxBranches = 2
-  MaxDup = 1
-  MaxForeign = 0
+  MaxDup = 0
+  MaxForeign = 1
   AllowTimeout = TRUE
   OblTruthful = TRUE
   OblLockCover = TRUE
@@ -13,4 +13,5 @@ CONSTANTS
   OblIdempotent = TRUE
   OblFence = TRUE
 INVARIANTS TypeOK ATAtomicRollback TCCAtomic NoDirtyGlobalWrite RollbackPossible
+PROPERTIES ForeignSafe
 CHECK_DEADLOCK FALSE
